@@ -974,3 +974,62 @@ func keysOf(m map[int]bool) []int {
 	sort.Ints(out)
 	return out
 }
+
+// The request id formatter is called by every request at once
+// (proxy.header.requestid): renderings do not depend on what other goroutines
+// render at the same moment, and generated ids do not repeat.
+func TestC20ConcurrentUUID(t *testing.T) {
+	hx.Check(t, hx.Scale(30, 300), func(t *rapid.T) {
+		G := rapid.IntRange(2, 16).Draw(t, "goroutines")
+		per := hx.Pick(2000, 20000)
+		seeds := make([]uint64, G)
+		for g := range seeds {
+			seeds[g] = rapid.Uint64().Draw(t, "seed")
+		}
+		var wg sync.WaitGroup
+		errs := make([]string, G)
+		ids := make([][]string, G)
+		start := make(chan struct{})
+		for g := 0; g < G; g++ {
+			wg.Add(1)
+			go func(g int) {
+				defer wg.Done()
+				<-start
+				x := seeds[g] | 1
+				var u [24]byte
+				for i := 0; i < per && errs[g] == ""; i++ {
+					for k := range u {
+						x ^= x << 13
+						x ^= x >> 7
+						x ^= x << 17
+						u[k] = byte(x)
+					}
+					want := fmt.Sprintf("%x-%x-%x-%x-%x", u[0:4], u[4:6], u[6:8], u[8:10], u[10:16])
+					if got := uuid.ToString(u); got != want {
+						errs[g] = fmt.Sprintf("uuid.ToString(%x) = %q, want %q", u, got, want)
+					}
+					if i%20 == 0 {
+						ids[g] = append(ids[g], uuid.NewUUID())
+					}
+				}
+			}(g)
+		}
+		close(start)
+		wg.Wait()
+		hx.EvalN(G * per)
+		seen := map[string]bool{}
+		for g := range errs {
+			if errs[g] != "" {
+				t.Fatalf("%d goroutines rendering at once: %s", G, errs[g])
+			}
+			for _, id := range ids[g] {
+				if seen[id] {
+					t.Fatalf("%d goroutines generating request ids at once: %s was handed out twice", G, id)
+				}
+				seen[id] = true
+			}
+		}
+		hx.NonTrivial(fmt.Sprintf("uuid-conc|%d|%v", G, seeds[0]))
+		hx.Class("concurrent-uuid")
+	})
+}
